@@ -7,6 +7,8 @@ package main
 
 import (
 	"fmt"
+	"path"
+	"path/filepath"
 	"reflect"
 	"slices"
 	"strconv"
@@ -37,6 +39,8 @@ var pureFuncs = map[string]any{
 	"strings.IndexAny": strings.IndexAny, "strings.ToValidUTF8": strings.ToValidUTF8, 
 	"unicode.IsPunct": unicode.IsPunct, "unicode.IsSymbol": unicode.IsSymbol, "unicode.IsMark": unicode.IsMark, "unicode.IsNumber": unicode.IsNumber,
 	"fmt.Sprint": fmt.Sprint,
+	"path/filepath.Base": filepath.Base, "path/filepath.Dir": filepath.Dir, "path/filepath.Ext": filepath.Ext, "path/filepath.Clean": filepath.Clean, "path/filepath.ToSlash": filepath.ToSlash,
+	"path.Base": path.Base, "path.Dir": path.Dir, "path.Ext": path.Ext, "path.Clean": path.Clean,
 }
 
 func init() {
